@@ -34,16 +34,47 @@ type Mutex struct {
 
 //go:norace
 func (m *Mutex) Lock() {
-	point(opLock, unsafe.Pointer(m))
+	if !(isQuiet(unsafe.Pointer(m)) && !m.held) {
+		point(opLock, unsafe.Pointer(m))
+	}
 	m.m.Lock()
 	m.held = true
 }
 
 //go:norace
 func (m *Mutex) Unlock() {
-	point(opUnlock, unsafe.Pointer(m))
+	if !isQuiet(unsafe.Pointer(m)) {
+		point(opUnlock, unsafe.Pointer(m))
+	}
 	m.held = false
 	m.m.Unlock()
+}
+
+// Quiet mutexes: with Config.Quiet set, Lock of a *free* registered mutex and its Unlock are not
+// scheduling points.  This is an abstraction for result-oriented checks only: it is exact when the
+// critical sections of that mutex contain no scheduling point (then they are atomic under the
+// cooperative scheduler anyway, and the mutex is never contended) and commute with everything the
+// oracle observes.  A Lock that finds the mutex held is still a blocking scheduling point.
+var quietSet [4]unsafe.Pointer
+
+func SetQuiet(ptrs ...unsafe.Pointer) {
+	for i := range quietSet {
+		quietSet[i] = nil
+	}
+	copy(quietSet[:], ptrs)
+}
+
+//go:norace
+func isQuiet(p unsafe.Pointer) bool {
+	if g.active == 0 || !g.cfg.Quiet {
+		return false
+	}
+	for _, q := range quietSet {
+		if q == p && q != nil {
+			return true
+		}
+	}
+	return false
 }
 
 //go:norace
